@@ -130,6 +130,16 @@ func (o OptSet) Has(kind string) bool {
 	return false
 }
 
+// PrecOf: the precision in force (0 without a Precision option)
+func (o OptSet) PrecOf() float64 {
+	for _, it := range o {
+		if it.Kind == "P" {
+			return it.Prec
+		}
+	}
+	return 0
+}
+
 func (o OptSet) KeysOf() []string {
 	for _, it := range o {
 		if it.Kind == "K" {
